@@ -15,6 +15,11 @@ def _okey(o, func):
     return "%s::%s::%s" % (func, o["kind"], o.get("clause") or o["note"][:80])
 
 
+def _short(reason, n=200):
+    """head and tail of a long reason (the solver runs of the last phase are at the end)"""
+    return reason if len(reason) <= 2 * n else reason[:n] + " ... " + reason[-n:]
+
+
 def load_expected():
     try:
         with open(EXPECTED) as f:
@@ -154,7 +159,7 @@ def run_deductive(run, keys, budget=None, only=None, companion=True):
             else:
                 if o["kind"] == "abort":
                     aborted.add(func)
-                undecided.append({"id": o["id"], "reason": (o.get("reason") or "")[:200], "clause": o["note"][:160]})
+                undecided.append({"id": o["id"], "reason": _short(o.get("reason") or ""), "clause": o["note"][:160]})
     for func, cf in canary_funcs.items():
         if cf["total"] and cf["non_discharged"] == 0 and func not in aborted:
             # (paths that left the verified subset discharge their canaries vacuously: those are reported as undecided, not as a fault)
